@@ -36,6 +36,8 @@ def main():
         if m and os.path.exists(m.group(1)):
             replay_detail = json.load(open(m.group(1))).get("detail")
     finally:
+        # the mutated run rewrote generated translations and evidence from the mutated tree: restore the committed ones
+        sh("git -C %s checkout -- coq/generated evidence" % VERIF)
         sh("git -C /repo worktree remove --force %s" % wt)
         shutil.rmtree(wt, ignore_errors=True)
     out = os.path.join(VERIF, "seeded", "%s-%s" % (prop, x))
